@@ -563,6 +563,9 @@ pub assume_specification<T, U, D, F> [std::option::Option::<T>::map_or_else] (o:
     where D: std::ops::FnOnce() -> U + std::marker::Destruct, F: std::ops::FnOnce(T,) -> U + std::marker::Destruct,
     requires o is None ==> call_requires(d, ()), o matches Some(x) ==> call_requires(f, (x,)),
     ensures o is None ==> call_ensures(d, (), r), o matches Some(x) ==> call_ensures(f, (x,), r);
+// [A-option-transpose] Option<Result<T, E>>::transpose
+pub assume_specification<T, E> [std::option::Option::<std::result::Result<T, E>>::transpose] (o: std::option::Option<std::result::Result<T, E>>) -> (r: std::result::Result<std::option::Option<T>, E>)
+    ensures r == (match o { None => Ok(None), Some(Ok(v)) => Ok(Some(v)), Some(Err(e)) => Err(e) });
 // [A-unwrap-or-else] Result::unwrap_or_else
 pub assume_specification<T, E, F> [std::result::Result::<T, E>::unwrap_or_else] (res: std::result::Result<T, E>, f: F) -> (o: T)
     where F: std::ops::FnOnce(E,) -> T + std::marker::Destruct,
@@ -1097,6 +1100,9 @@ pub broadcast axiom fn axiom_text_cbor_inj(a: Seq<char>, b: Seq<char>)
 // [A-string-from-str] String::from(&str) / <&str as Into<String>>::into keep the characters
 pub assume_specification<'a> [<String as From<&'a str>>::from] (s: &str) -> (r: String)
     ensures r@ == s@;
+// [A-str-eq-ignore-ascii-case] str::eq_ignore_ascii_case: equal texts compare equal (nothing is said about different texts)
+pub assume_specification [str::eq_ignore_ascii_case] (a: &str, b: &str) -> (r: bool)
+    ensures a@ == b@ ==> r;
 // [A-str-to-string] str::to_string / String::as_str / Option::as_deref keep the characters
 #[verifier::external_body]
 pub fn str_to_string(s: &str) -> (r: String) ensures r@ == s@ { unimplemented!() }
